@@ -91,8 +91,9 @@ theorem C14_convertFile_perm (name : Str) (sums sums' : List Summary')
   | panic w => rfl
 
 /-- **Permuting the file listing.** For every bundle and package that compiles, whose export names
-are distinct across its files and whose generated files have distinct names (true of every valid
-bundle), listing the package's source files in any other order yields the same compiled files —
+are distinct across its files and whose generated files have distinct names (ASSUMPTIONS `hdist`,
+`hnames`: the generator only produces such bundles; they are not derived from `ValidBundle` — with
+duplicate export names the winner in `Package.includeIO` does depend on the order), listing the package's source files in any other order yields the same compiled files —
 same descriptors, in the same (sorted) order. Dependencies may be any packages of the bundle, at
 any depth. (`compilePkg` = `CompilePackage` up to the link step; the link step is a function of
 this result.) -/
@@ -172,20 +173,26 @@ def printAll (gen : String) (view : FileSkel → J5V.Print.Layout.FileD) (o : Ou
     Outcome (List (Str × String)) :=
   o.map (List.map fun f => (f.name, J5V.Print.Layout.printText gen (view f)))
 
-/-- **Compile ∘ print is deterministic (one statement, on the models).** Take a bundle `b`, list its
-packages in any other order (`b'`), and list the files of the compiled package in any other order
-(`files'`); let the printer be handed, for each generated file, any descriptor view whose ARRANGED
-form is the same (`view` / `view'`: e.g. the same descriptor with its elements reached in another
-order — `FileD.arranged` sorts them with the printer's total order, `C05_order_total`). Then the
-result of `CompilePackage` up to the link step followed by `PrintFile` of every file — outcome class,
-file names in order, and the printed text of every file — is identical; second conjunct: the same
-for the LINKED result (`compileLinked`, fully-qualified type names) under the permuted package
-listing and the other view. Composition of
-`C14_perm_packages`, `C14_perm_files` and the statement of `C05_print_function` (printed text is a
-function of the arranged descriptor; re-derived here in two lines so that this file does not
-depend on the print cluster's Props). Hypotheses as in `C14_perm_files`: distinct package names,
-distinct export names and generated file names (true of every valid bundle). -/
-theorem C14_compile_print_deterministic (gen : String)
+/-- **Compile ∘ print determinism on the models — PARTIAL: the compile half is proved, the print
+half is assumed through `hview`.** Take a bundle `b`, list its packages in any other order (`b'`),
+and list the files of the compiled package in any other order (`files'`). PROVED (from
+`C14_perm_packages`, `C14_perm_files`): the compile results are EQUAL — outcome class, file names in
+order, every skeleton — both up to the link step (`compilePkg`, under both permutations) and linked
+(`compileLinked`, under the package permutation). Hence any function of the compile result is equal
+too; `printAll` applies the printer model to a descriptor view of each file.
+ASSUMED, not proved here: (1) `view` / `view'` are ARBITRARY functions `FileSkel → FileD` — there is
+no model of the step "compiled FileDescriptorProto → protoreflect descriptor the printer reads"
+(protodesc / protobuf-go are outside the model); (2) `hview`: the two views have the same
+ARRANGEMENT (`FileD.arranged`) for every file. With `view' = view` (one deterministic view) `hview`
+is `rfl` and the statement is exactly "equal compile results print equally"; for two different
+views `hview` is precisely what a theorem about the printer's sort would have to establish:
+`arranged` is invariant under a permutation of `items` only when the comparison is a strict total
+order on them — `C05_order_total` needs `noTies`; elements without source lines that tie are NOT
+covered (`sort.Sort` is unstable there; DESIGN §6). The print step itself is the statement of
+`C05_print_function` (the text is a function of the arranged descriptor — true by the definition
+of `printText`), re-derived in two lines. So this theorem adds to `C14_perm_*` only the packaging;
+it does NOT prove that printing is independent of the element order the descriptor is read in. -/
+theorem C14_compile_print_deterministic_partial (gen : String)
     (view view' : FileSkel → J5V.Print.Layout.FileD)
     (hview : ∀ f, (view f).arranged = (view' f).arranged)
     (b b' : Bundle) (hpk : b.pkgs.Perm b'.pkgs) (hnd : (b.pkgs.map (·.name)).Nodup)
@@ -254,7 +261,7 @@ example : DistinctExports
       { path := b!"b", pkg := b!"p", exports := [(b!"B", ⟨b!"p", b!"B", b!"b", .message false⟩)], depPkgs := [] } ] := by
   unfold DistinctExports; decide
 
-/-- hypotheses of `C14_compile_print_deterministic`: `exBundle2`, its reversed package listing, the
+/-- hypotheses of `C14_compile_print_deterministic_partial`: `exBundle2`, its reversed package listing, the
 two files of `foo.v1` listed the other way round, and a view that is not constant (imports and
 package of the generated file) -/
 def exBundle2r : Bundle := { pkgs := exBundle2.pkgs.reverse }
